@@ -144,6 +144,14 @@ def make_objective(name: str, box: np.ndarray, maximize: bool, shift: float = 0.
                 return float("nan")
             return float(np.sum((u - c) ** 2)) + shift
 
+    elif name == "nanhalf":
+        # undefined on half of the box (like sqrt of a coordinate that may be negative)
+        def f(x):
+            u = (np.asarray(x, dtype=float) - lo) / rng
+            if u[0] < 0.5:
+                return float("nan")
+            return float(np.sum((u - c) ** 2)) + shift
+
     elif name == "const":
 
         def f(x):
